@@ -130,6 +130,7 @@ class HedString(HedGroup):
             expanded_parent = def_expand_group._parent
             if expanded_parent:
                 def_expand_tag.short_base_tag = DefTagNames.DEF_KEY
+                def_expand_tag._expanded = False
                 def_expand_tag._parent = expanded_parent
                 expanded_parent.replace(def_expand_group, def_expand_tag)
 
@@ -155,6 +156,7 @@ class HedString(HedGroup):
             tag_parent.replace(tag, group)
             tag._parent = group
             tag.short_base_tag = DefTagNames.DEF_EXPAND_KEY
+            tag._expanded = True
 
         return self
 
